@@ -120,3 +120,119 @@ class SetValidate(_CmdValidate):
 class AddValidate(_CmdValidate):
     cls = ('circus.commands.addwatcher', 'AddWatcher')
     base = {'name': 'w9', 'cmd': 'sleep 1'}
+
+
+OPTNAMES = ('numprocesses', 'warmup_delay', 'working_dir', 'uid', 'gid', 'send_hup', 'stop_signal', 'stop_children',
+            'shell', 'env', 'cmd', 'args', 'graceful_timeout', 'max_age', 'max_age_variance')
+
+
+def opt_snapshot(w):
+    return [(n, repr(getattr(w, n, None))) for n in OPTNAMES] + [('_options', repr(sorted(w._options.items())))]
+
+
+@register('circus.commands.set:Set.execute')
+class SetExecute(object):
+    """real Set.execute -> real Watcher.set_opt (through the real @synchronized wrapper) on a real Watcher"""
+    def from_model(self, m):
+        return []
+
+    def enumerate(self):
+        good = [('working_dir', '/x'), ('graceful_timeout', 7), ('max_age', 5), ('send_hup', True)]
+        late_fail = [('uid', 'no_such_user_zz_replay'), ('gid', 'no_such_group_zz_replay'), ('numprocesses', 2)]
+        for busy in (False, True):
+            yield {'options': [], 'singleton': True, 'busy': busy}
+            for g in good:
+                yield {'options': [list(g)], 'singleton': True, 'busy': busy}
+            for f in late_fail:
+                yield {'options': [list(f)], 'singleton': True, 'busy': busy}
+                for g in good:
+                    yield {'options': [list(g), list(f)], 'singleton': True, 'busy': busy}     # valid first, refused later
+                    yield {'options': [list(f), list(g)], 'singleton': True, 'busy': busy}
+
+    def run(self, inp):
+        from circus.commands.set import Set
+        from replay.adapters_arbiter import bare_arbiter
+        a = bare_arbiter(['w1'])
+        w = a.watchers[0]
+        w.singleton = inp['singleton']
+        w.numprocesses = 1
+        w._options = {}
+        w.do_action = lambda num: None
+        if inp['busy']:
+            a._exclusive_running_command = 'other_operation'
+        before = opt_snapshot(w)
+        props = {'name': 'w1', 'options': dict((k, v) for k, v in inp['options'])}
+        obs = {}
+        try:
+            Set().execute(a, props)
+        except Exception as e:
+            obs['raised'] = type(e).__name__
+        after = opt_snapshot(w)
+        obs['changed'] = [n for (n, x), (_, y) in zip(before, after) if x != y]
+        return obs
+
+    def check(self, inp, obs):
+        bad = set()
+        if 'raised' in obs and obs['changed']:
+            if obs['raised'] == 'ConflictError':
+                bad.add('raises[ConflictError][0]')
+            elif obs['raised'] == 'MessageError':
+                bad.add('raises[MessageError][0]')
+            else:
+                bad.add('raises[*][0]')
+        return bad
+
+
+@register('circus.commands.addwatcher:AddWatcher.execute')
+class AddExecute(object):
+    """real AddWatcher.execute -> real Arbiter.add_watcher on a bare real Arbiter with a stub controller"""
+    def from_model(self, m):
+        return []
+
+    def enumerate(self):
+        for mode, owner in ((False, None), (True, 1000), (True, 'bob')):
+            for name in ('w9', 'W1', 'w1', ''):
+                for uid in ('absent', 1000, 1001, 'bob', None):
+                    for extra in ({}, {'rlimit_nofile': 100}, {'numprocesses': 2}):
+                        yield {'mode': mode, 'owner': owner, 'name': name, 'uid': uid, 'extra': extra}
+
+    def run(self, inp):
+        from circus.commands.addwatcher import AddWatcher
+        from replay.adapters_arbiter import bare_arbiter, dir_violations
+        a = bare_arbiter(['w1'])
+        a.ctrl = type('Ctl', (), {'endpoint_owner_mode': inp['mode']})()
+        a.endpoint_owner = inp['owner']
+        opts = dict(inp['extra'])
+        if inp['uid'] != 'absent':
+            opts['uid'] = inp['uid']
+        props = {'name': inp['name'], 'cmd': 'sleep 1', 'options': opts}
+        before = (list(a.watchers), dict(a._watchers_names))
+        obs = {}
+        try:
+            AddWatcher().execute(a, props)
+        except Exception as e:
+            obs['raised'] = type(e).__name__
+        obs['unchanged'] = before == (list(a.watchers), dict(a._watchers_names))
+        obs['dir'] = sorted(dir_violations(a))
+        obs['present'] = inp['name'].lower() in a._watchers_names
+        return obs
+
+    def check(self, inp, obs):
+        bad = set()
+        uid = None if inp['uid'] == 'absent' else inp['uid']
+        if 'raised' not in obs:
+            if not obs['present']:
+                bad.add('post[added]')
+            if inp['name'].lower() == 'w1':
+                bad.add('post[was-new]')
+            if inp['mode'] and uid != inp['owner']:
+                bad.add('post[owner-checked]')
+        else:
+            r = obs['raised']
+            if r in ('MessageError', 'AlreadyExist', 'ConflictError') and not obs['unchanged']:
+                bad.add('raises[%s][0]' % r)
+            if r == 'MessageError' and not inp['mode']:
+                bad.add('raises[MessageError][1]')
+            for d in obs['dir']:
+                bad.add('raises[*][%d]' % {'dir1': 0, 'dir2': 1, 'dir3': 2, 'dir4': 3}[d])
+        return bad
